@@ -18,16 +18,40 @@ def finish (c : List ℝ) : LoopR Int (Int × Int) → Int
   | LoopR.hang => panicV
   | LoopR.done (_, low) => Min.min (listLen c) (wrapU64 (Max.max low (0 : Int)))
 
-theorem binary_index_eq_finish (c : List ℝ) (val : ℝ) :
-    D.categorical.binary_index c val
-      = finish c (D.categorical.binary_index.loop1 loopFuel c val (wrapI64 (listLen c) - 1) 0) := by
-  unfold D.categorical.binary_index
+open Lean Elab Term Meta in
+/-- The value of the generated `D.categorical.binary_index` read from the environment (not copied),
+    with the constant `loopFuel` replaced by the given term.  Needed because the kernel cannot
+    compare `binary_index c val` with its own unfolding: the matcher on the loop result is an
+    `abbrev`, so the kernel reduces it first and tries to evaluate the loop on the symbolic table.
+    Unfolding BOTH sides of `binary_index c val = binIdx loopFuel c val` gives syntactically
+    identical terms, which the kernel accepts at once. -/
+elab "binary_index_with_fuel% " f:term : term => do
+  let fuel ← elabTermEnsuringType f (mkConst ``Nat)
+  let ci ← getConstInfo ``Statrs.Gen.D.categorical.binary_index
+  let v := ci.value!
+  return v.replace fun e => if e.isConstOf ``Statrs.loopFuel then some fuel else none
+
+/-- `binary_index` with the loop fuel as a parameter -/
+def binIdx (fuel : Nat) := binary_index_with_fuel% fuel
+
+theorem binary_index_eq_binIdx (c : List ℝ) (val : ℝ) :
+    D.categorical.binary_index c val = binIdx loopFuel c val := rfl
+
+theorem binIdx_eq_finish (fuel : Nat) (c : List ℝ) (val : ℝ) :
+    binIdx fuel c val
+      = finish c (D.categorical.binary_index.loop1 fuel c val (wrapI64 (listLen c) - 1) 0) := by
+  unfold binIdx
   simp only
-  generalize D.categorical.binary_index.loop1 loopFuel c val (wrapI64 (listLen c) - 1) 0 = r
+  generalize D.categorical.binary_index.loop1 fuel c val (wrapI64 (listLen c) - 1) 0 = r
   cases r with
   | ret v => rfl
   | hang => rfl
   | done s => obtain ⟨h, l⟩ := s; rfl
+
+theorem binary_index_eq_finish (c : List ℝ) (val : ℝ) :
+    D.categorical.binary_index c val
+      = finish c (D.categorical.binary_index.loop1 loopFuel c val (wrapI64 (listLen c) - 1) 0) := by
+  rw [binary_index_eq_binIdx, binIdx_eq_finish]
 
 private theorem findIdx_eq_of_split (c : List ℝ) (val : ℝ) (r : ℕ) (hr : r ≤ c.length)
     (hlo : ∀ i : ℕ, i < r → ∀ h : i < c.length, c[i] < val)
